@@ -7,6 +7,8 @@
 (*    run1 l  : eko run <dir l>                 (cards and output by default names) *)
 (*    run2 l  : eko run l/theory.yaml l/operator.yaml     (output next to the card) *)
 (*    run3 l  : eko run l/theory.yaml l/operator.yaml out.tar                       *)
+(*    run2x l : eko run l/theory.yaml m/operator.yaml  with m the other location:    *)
+(*              the output is placed next to the OPERATOR card (in m)                *)
 (* Two designs, selected by switches transcribed from /repo/src/ekobox/cli:         *)
 (*    DestMustExist  library.destination: click.Path(exists=True) refuses a         *)
 (*                   destination that does not exist yet (exit 2), although         *)
@@ -27,9 +29,12 @@ OutStates == {"none", "stale", "eko"}        \* stale: a file that was there bef
 FsStates == [dir : [Locs -> BOOLEAN], cards : [Locs -> CardStates], out : [Outs -> OutStates]]
 WellFormed(s) == \A l \in Locs : ~s.dir[l] => s.cards[l] = "none" /\ s.out[l] = "none"
 
-Cmds == [op : {"gen"}, l : Locs] \cup [op : {"run1", "run2", "run3"}, l : Locs]
-Target(c) == IF c.op = "run3" THEN "X" ELSE c.l
-Runnable(c, s) == s.cards[c.l] = "valid" /\ s.out[Target(c)] = "none"
+Cmds == [op : {"gen"}, l : Locs] \cup [op : {"run1", "run2", "run3", "run2x"}, l : Locs]
+Other(l) == IF l = "rc" THEN "D" ELSE "rc"
+Target(c) == IF c.op = "run3" THEN "X" ELSE IF c.op = "run2x" THEN Other(c.l) ELSE c.l
+Runnable(c, s) == /\ s.cards[c.l] = "valid"
+                  /\ (c.op = "run2x" => s.cards[Other(c.l)] = "valid")
+                  /\ s.out[Target(c)] = "none"
 
 Result(c, s) ==
   IF c.op = "gen" THEN
